@@ -11,6 +11,7 @@ import (
 
 	"github.com/icon-project/goloop/common"
 	"github.com/icon-project/goloop/consensus"
+	"github.com/icon-project/goloop/consensus/fastsync"
 	"github.com/icon-project/goloop/module"
 	"github.com/icon-project/goloop/test"
 )
@@ -178,6 +179,10 @@ func (s *sim) deliver(src, dst *node, m outMsg) {
 	}
 	s.rc.Event("DELIVER %s", tag)
 	s.rc.Metric("deliveries", 1)
+	if dst.byz && s.byz.fastsync && m.proto == module.ProtoFastSync && m.sub == fastsync.ProtoBlockRequest {
+		s.byz.onFastSyncRequest(src, m.data)
+		s.rc.Probe("fastsync_request_to_byzantine_server")
+	}
 	// the reactor runs on this event goroutine; it parks for the consensus mutex
 	_, _ = h.reactor.OnReceive(m.sub, m.data, src.peerID)
 }
@@ -281,6 +286,15 @@ func (s *sim) submitTx(kind int) {
 		tx.SetValidators(vals...)
 		desc = fmt.Sprintf("validators=%d", len(vals))
 		s.rc.Probe("validator_set_change_submitted")
+	}
+	if kind == 2 {
+		// the state produced by the block carrying this transaction requires a block
+		// version nobody can produce: the chain must stop there, never continue with
+		// blocks of the old version
+		v3 := int32(3)
+		tx.SetNextBlockVersion(&v3)
+		desc = "nextBlockVersion=3"
+		s.rc.Probe("next_block_version_change_submitted")
 	}
 	txs := tx.String()
 	// gossip stand-in: hand it to a non-empty tape-chosen subset of live nodes
